@@ -270,8 +270,15 @@ class AlgDomain:
     # ---- ufuncs
     UN = {np.negative: lambda x: -x, np.positive: lambda x: x, np.conjugate: _conj, np.sqrt: _sqrt, np.absolute: _abs,
           np.cos: _cos, np.sin: _sin, np.exp: _exp, np.square: lambda x: x * x, np.reciprocal: lambda x: 1 / x}
+    @staticmethod
+    def _maximum(a, b):
+        d = sp.expand(a - b)
+        if d.free_symbols:
+            raise Unsupported('maximum of symbolic reals')
+        return a if d >= 0 else b
+
     BIN = {np.add: lambda a, b: a + b, np.subtract: lambda a, b: a - b, np.multiply: lambda a, b: a * b,
-           np.true_divide: lambda a, b: a / b, np.power: lambda a, b: a ** b}
+           np.true_divide: lambda a, b: a / b, np.power: lambda a, b: a ** b, np.maximum: (lambda a, b: AlgDomain._maximum(a, b)), np.minimum: (lambda a, b: b if AlgDomain._maximum(a, b) is a else a)}
     CMP = {np.equal: '==', np.not_equal: '!=', np.less: '<', np.less_equal: '<=', np.greater: '>', np.greater_equal: '>='}
 
     def _decl(self, x):
